@@ -380,7 +380,7 @@ Section RoundTripGen.
         unstructure b64enc ct ureg v (TData c) = Ok j' /\ rt_rel ct (TData c) j j'.
   Proof.
     intros until ureg. intros Hb Hs Hu c j Hc.
-    destruct (decode_encode_core b64dec b64enc dt_parse date_parse uuid_parse time_parse int_of_str float_of_str
+    destruct (decode_encode_all b64dec b64enc dt_parse date_parse uuid_parse time_parse int_of_str float_of_str
                 str_of_json ct sreg ureg Hb gen_ct_ok Hs Hu gen_defaults_ok j (TData c) eq_refl Hc)
       as [v [j' [H1 [H2 [H3 _]]]]].
     exists v, j'. repeat split; assumption.
